@@ -88,4 +88,7 @@ Example C21_partial_nonvacuous :
   /\ is_in_directories (s "p/sub2/a.txt") [s "p/sub"] = false
   /\ is_in_directories (s "p/sub/a.txt") [s "p/sub"] = true
   /\ is_hidden (s "p/.hid/x.txt") = false /\ is_hidden (s "p/d/.x.txt") = true.
-Proof. vm_compute. repeat split. Qed.
+Proof.
+  repeat match goal with |- _ /\ _ => split end; try (vm_compute; reflexivity).
+  exact (proj1 compiles_sweep).
+Qed.
